@@ -11,7 +11,7 @@ for id in $ids; do
   wt=/tmp/main/sweep/$id
   git -C /repo worktree remove --force $wt >/dev/null 2>&1
   git -C /repo worktree add -q --detach $wt HEAD || { echo "$id: worktree failed"; continue; }
-  if ! git -C $wt apply seeded/$id/patch.diff 2>/dev/null; then echo "$id: PATCH DOES NOT APPLY TO HEAD"; git -C /repo worktree remove --force $wt; continue; fi
+  if ! git -C $wt apply /verif/seeded/$id/patch.diff 2>/dev/null; then echo "$id: PATCH DOES NOT APPLY TO HEAD"; git -C /repo worktree remove --force $wt; continue; fi
   for c in $checks; do
     KAWIN_VERIF_REPO=$wt /venv/bin/python run_check.py $c --tier $tier --jobs ${JOBS:-8} > /tmp/main/sweep/$id.$c.log 2>&1
     rc=$?
